@@ -972,6 +972,36 @@ def unfold_combinator(text, off, variant):
     return [Edit(rs, rs, "(match ", "R21"), Edit(dot, body_s, head, "R21"), Edit(body_e, cp + 1, tail, "R21")], bar1
 
 
+# ---------------------------------------------------------------- R22 filter_map over an owned map -> loop
+def r22_filter_map(text):
+    """`M.into_iter().filter_map(|PAT| { BODY }).collect()` (M a plain identifier; tail expression or let initialiser) ->
+    `{ let fm_f_ = |fm_p_| { let PAT = fm_p_; BODY }; let fm_src_ = into_pairs(M); let mut fm_out_ = Vec::new();
+       for fm_x_ in fm_src_ { if let Some(fm_y_) = fm_f_(fm_x_) { fm_out_.push(fm_y_); } } fm_out_ }`
+    — the definition of filter_map + collect into a Vec. `into_pairs` is the assumed contract of the map's `into_iter`
+    (every pair exactly once, in an unspecified order)."""
+    m = mask(text)
+    for mt in re.finditer(r"(?<![A-Za-z0-9_.])([a-z_][A-Za-z0-9_]*)\s*\.\s*into_iter\s*\(\s*\)\s*\.\s*filter_map\s*\(\s*\|", m):
+        op = m.rindex("(", mt.start(), mt.end())
+        cp = match_close(m, op)
+        tail = re.match(r"\s*\.\s*collect\s*\(\s*\)", m[cp + 1:])
+        if not tail:
+            raise Unsupported("R22: filter_map not followed by collect()")
+        end = cp + 1 + tail.end()
+        bar1 = mt.end() - 1
+        bar2 = m.index("|", bar1 + 1)
+        pat = text[bar1 + 1:bar2].strip()
+        bs = skip_ws(m, bar2 + 1)
+        if m[bs] != "{":
+            raise Unsupported("R22: closure body is not a block")
+        be = match_close(m, bs)
+        if m[be + 1:cp].strip() not in ("", ","):
+            raise Unsupported("R22: closure shape")
+        src = mt.group(1)
+        return [Edit(mt.start(), bs + 1, "{ let fm_f_ = |fm_p_| { let %s = fm_p_;" % pat, "R22"),
+                Edit(be + 1, end, "; let fm_src_ = into_pairs(%s); let mut fm_out_ = Vec::new(); for fm_x_ in fm_src_ { if let Some(fm_y_) = fm_f_(fm_x_) { fm_out_.push(fm_y_); } } fm_out_ }" % src, "R22")]
+    return []
+
+
 # ---------------------------------------------------------------- R14 const fn
 def r14_const_fn(text):
     m = mask(text)
@@ -984,7 +1014,7 @@ def r14_const_fn(text):
 # ---------------------------------------------------------------- R15 matches! with binding-free patterns is fine; nothing to do
 
 
-ITERATED = {"R6", "R7", "R10", "R11", "R15", "R16", "R17", "R18", "R19", "R20"}
+ITERATED = {"R6", "R7", "R10", "R11", "R15", "R16", "R17", "R18", "R19", "R20", "R22"}
 
 TABLE = {
     "R1": r1_visibility,
@@ -1007,10 +1037,11 @@ TABLE = {
     "R18": r18_abstract_let,
     "R19": r19_entry_or_insert,
     "R20": r20_rev_suffix,
+    "R22": r22_filter_map,
 }
-ORDER = ["R2", "R1", "R1p", "R14", "R4", "R3", "R5", "R6", "R15", "R13", "R11", "R7", "R8", "R12", "R17", "R18", "R19", "R20", "R10", "R16"]
+ORDER = ["R2", "R1", "R1p", "R14", "R4", "R3", "R5", "R6", "R15", "R13", "R11", "R7", "R8", "R12", "R17", "R18", "R19", "R20", "R22", "R10", "R16"]
 
-EXEC_TOUCHING = {"R3", "R4", "R6", "R7", "R8", "R10", "R11", "R12", "R13", "R14", "R15", "R16", "R17", "R18", "R19", "R20", "R21"}
+EXEC_TOUCHING = {"R3", "R4", "R6", "R7", "R8", "R10", "R11", "R12", "R13", "R14", "R15", "R16", "R17", "R18", "R19", "R20", "R21", "R22"}
 
 
 def apply_rewrites(text, enabled, opts=None):
